@@ -145,20 +145,30 @@ def run(pid, tier, seed):
         futs = []
         mcs = p.mc.get(tier, p.mc.get("quick", []))
         nw = max(2, vk.NCPU // max(1, len(mcs)) // 2)
-        for (module, cfg, tmo) in mcs:
-            futs.append((module, cfg, ex.submit(vk.model_check, p.family, module, cfg, tmo, nw)))
+        for ent in mcs:
+            module, cfg, tmo = ent[0], ent[1], ent[2]
+            expect_ok = (len(ent) < 4 or ent[3] == "ok")
+            futs.append((module, cfg, expect_ok, ex.submit(vk.model_check, p.family, module, cfg, tmo, nw, expect_ok)))
         # 2. the real code
         out = os.path.join(wd, "trace.ndjson")
         hp = vk.run_harness(binary, [p.driver, "-tier", tier, "-seed", str(seed), "-out", out], timeout=p.harness_timeout)
         summary = _parse_summary(hp.stdout)
         states = transitions = 0
         mcinfo = []
-        for (module, cfg, f) in futs:
+        for (module, cfg, expect_ok, f) in futs:
             r = f.result()
-            states += r.distinct
-            transitions += r.generated
+            if not expect_ok:
+                # model-level negative control: the specification with a seeded design bug must be rejected
+                if r.ok or not r.violated:
+                    raise vk.MachineryError("model-level negative control %s %s was not rejected by TLC" % (module, cfg))
+                coverage["model_negative_controls_rejected"] = coverage.get("model_negative_controls_rejected", 0) + 1
+            else:
+                states += r.distinct
+                transitions += r.generated
             mcinfo.append({"module": module, "cfg": cfg, "distinct": r.distinct, "generated": r.generated,
-                           "depth": r.depth, "wall_s": round(r.wall, 1)})
+                           "depth": r.depth, "wall_s": round(r.wall, 1),
+                           "expected": "no error" if expect_ok else "violation (seeded design bug)",
+                           "violated": r.violated})
         # 3. trace validation
         trace_files = {s: out + s for (s, _, _) in p.traces}
         if p.traces:
@@ -258,3 +268,34 @@ reg(P("C20", "plugins", "c20",
       sig_reset=("threshold", "mock", "recovery"), sig_event=("o", "el", "fwd", "res"),
       mutate=_c20_mutate, design_ref="DESIGN.md §6 C20",
       technique="TLC exhaustive model checking of CircuitBreaker.tla + TLC trace validation of real executions"))
+
+
+def _c15_mutate(rec):
+    if rec.get("ev") == "enter":
+        rec["h"] = "i2" if rec["h"] != "i2" else "i3"
+        return rec
+    return None
+
+
+reg(P("C15", "plugins", "c15",
+      mc={"quick": [("PluginManagerImplMC", "PluginManagerImpl_mc.cfg", 600),
+                    ("PluginManagerImplMC", "PluginManagerImpl_mc_service.cfg", 600),
+                    ("PluginManagerImplMC", "PluginManagerImpl_bug1.cfg", 600, "violation"),
+                    ("PluginManagerImplMC", "PluginManagerImpl_bug2.cfg", 600, "violation")],
+          "thorough": [("PluginManagerImplMC", "PluginManagerImpl_mc_big.cfg", 1500),
+                       ("PluginManagerImplMC", "PluginManagerImpl_mc_service.cfg", 600),
+                       ("PluginManagerImplMC", "PluginManagerImpl_bug1.cfg", 600, "violation"),
+                       ("PluginManagerImplMC", "PluginManagerImpl_bug2.cfg", 600, "violation")]},
+      traces=[("", "PluginChainTrace", "PluginChainTrace.cfg")],
+      level="model_checking",
+      rule="cases = every history up to the tier's length over an alphabet of 36 operations (Use/Unuse of 14 handler "
+           "lists incl. repeats and two-sided plugins, call, call suspended inside one of 5 handlers, resume) on "
+           "Client and Service, plus seeded longer histories and free-running concurrent runs (1 mutator, 4 callers); "
+           "non-trivial = contains at least one Use and one call (or is concurrent); distinct by full input",
+      assumptions=["handlers are distinct top-level functions and methods of distinct plugin types (Unuse identifies a "
+                   "handler by its code pointer)",
+                   "'affects only later calls' is judged per plugin manager: the list a call traverses in a manager "
+                   "is the manager's list at the moment the call fetched it (see DESIGN.md C15)"],
+      sig_reset=("side", "conc"), sig_event=("ev", "mgr", "h"),
+      mutate=_c15_mutate, design_ref="DESIGN.md §6 C15",
+      technique="TLC refinement check PluginManagerImpl => PluginChain + TLC trace validation of recorded traversals"))
